@@ -156,7 +156,7 @@ func VerifC09(args []string) {
 		conf.VariableKeyMap[markerName] = 2
 	}
 	conf.OperatorMap["tick"] = func(_ *Ctx, ps []Value) (Value, error) { return tickVal, nil }
-	for i, o := range optimizations {
+	for i, o := range vfOptimizations {
 		conf.CompileOptions[o] = opts[i] == '1'
 	}
 	switch evMode {
